@@ -7,6 +7,7 @@ from typing import Dict, List, Optional, Tuple
 
 from ..model import AnalysisError, dotted
 from ..rules import common
+from ..rules.match import m_method
 from ..rules.trialsib import Sib
 from ..symex import (Evaluator, array_fn, call_parts, const, func_name, getitem, is_const, match_vmap,
                      show, strip_wrappers, subterms, sym)
@@ -154,20 +155,54 @@ def kind3(ctx):
                f"{len(gots)} producer sites: " + ", ".join(
                    f"nonzero(({g_[0]} - d) {'>' if g_[1] == 'Gt' else '<'} 0)" for g_ in gots) if gots
                else "producer expression not found", fi)
-    # final stores (array conversion stage): conversions per list
-    n_conv: Dict[str, List[Tuple[bool, Optional[str], int]]] = {}
-    for name_ in ("Acre", "Ades", "Bcre", "Bdes"):
-        for t, v, conds, line in _assign_targets(node, role[name_]):
-            # only the reshaping stage (value mentions reshape) under a positive membership test
-            src = ast.unparse(v)
-            if "reshape" not in src:
+    # final stores (array conversion stage), read from the value graph: a store into table X whose value reshapes the
+    # accumulated lists; it is rank-converted when the lists index (cumsum(reference occupation of spin s) - 1)
+    def ref_spin(t):
+        t = strip_wrappers(t)
+        if t.op == "call" and call_parts(t)[1]:
+            t = strip_wrappers(call_parts(t)[1][0])
+        if t.op == "getitem" and t.args[1].op == "const" and t.args[1].args[0] in (0, 1) and \
+                not any(z.op == "iter" for z in subterms(t)):
+            return f"d0[{t.args[1].args[0]}]"
+        return None
+
+    def table_of(t) -> set:
+        return {z.args[1] for z in subterms(t) if z.op in ("havoc", "loopout") and len(z.args) > 1 and
+                isinstance(z.args[1], str)}
+
+    def above_tables(t):
+        """sub-terms of t that are not inside the previous contents of a table (havoc / loopout terms carry those)"""
+        out, seen, stack = [], set(), [t]
+        while stack:
+            z = stack.pop()
+            if not hasattr(z, "op") or z.uid in seen:
                 continue
-            conv = None
-            for nd in ast.walk(v):
-                if isinstance(nd, ast.Subscript) and isinstance(nd.value, ast.Name) and nd.value.id in rank:
-                    if role[name_] in {n_.id for n_ in ast.walk(nd.slice) if isinstance(n_, ast.Name)}:
-                        conv = rank[nd.value.id]
-            n_conv.setdefault(name_, []).append((conv is not None, conv, line))
+            seen.add(z.uid)
+            out.append(z)
+            if z.op in ("havoc", "loopout"):
+                continue
+            stack.extend(a_ for a_ in z.args if hasattr(a_, "op"))
+        return out
+
+    n_conv: Dict[str, List[Tuple[bool, Optional[str], int]]] = {}
+    for e in pev.events:
+        if e.kind != "store" or e.data[0] not in by_var:
+            continue
+        name_ = by_var[e.data[0]]
+        v = e.data[2]
+        if not any(m_method(z, "reshape") is not None or (z.op == "call" and array_fn(z) == "reshape") for z in above_tables(v)):
+            continue
+        conv = None
+        for z in above_tables(v):
+            if z.op != "getitem":
+                continue
+            base = strip_wrappers(z.args[0])
+            if base.op == "binop" and base.args[0] in ("-", "+"):
+                cs = [c_ for c_ in (strip_wrappers(base.args[1]), strip_wrappers(base.args[2]))
+                      if c_.op == "call" and array_fn(c_) == "cumsum" and call_parts(c_)[1]]
+                if cs and e.data[0] in table_of(z.args[1]):
+                    conv = ref_spin(call_parts(cs[0])[1][0]) or "?"
+        n_conv.setdefault(name_, []).append((conv is not None, conv, e.line))
     for name_, spin in (("Acre", "d0[0]"), ("Bcre", "d0[1]")):
         lst = n_conv.get(name_, [])
         conv = [c for c in lst if c[0]]
@@ -468,10 +503,12 @@ def producer_pairing(ctx):
 def read_dets(ctx):
     p = ctx.p
     fi = p.func(f"{PI}.read_dets")
+    from ..model import norm
+    fnode = norm(fi.node)     # single-use temporaries substituted: f.read(4) may be named before it is unpacked
     sizes = {"i": 4, "d": 8, "c": 1, "q": 8, "f": 4}
     seq = []
     bad = []
-    for nd in ast.walk(fi.node):
+    for nd in ast.walk(fnode):
         if isinstance(nd, ast.Call) and (dotted(nd.func) or "").endswith("struct.unpack") and len(nd.args) == 2:
             fmt = nd.args[0].value if isinstance(nd.args[0], ast.Constant) else None
             rd = nd.args[1]
@@ -488,7 +525,7 @@ def read_dets(ctx):
            and not bad, f"formats in file order {fmts}" + (f"; {bad}" if bad else ""), fi)
     # header fields: the first int bounds the loop over determinants (default count), the second the loop over orbitals
     hdr = []
-    for nd in ast.walk(fi.node):
+    for nd in ast.walk(fnode):
         if isinstance(nd, ast.Assign) and isinstance(nd.targets[0], ast.Name) and any(
                 isinstance(c, ast.Call) and (dotted(c.func) or "").endswith("struct.unpack") and c.args and
                 isinstance(c.args[0], ast.Constant) and c.args[0].value == "i" for c in ast.walk(nd.value)):
@@ -496,7 +533,7 @@ def read_dets(ctx):
     hdr.sort()
     hn = [h for _, h in hdr]
     det_loop = orb_loop = None
-    for nd in ast.walk(fi.node):
+    for nd in ast.walk(fnode):
         if isinstance(nd, ast.For) and isinstance(nd.iter, ast.Call) and dotted(nd.iter.func) == "range" and nd.iter.args:
             unp = [c for c in ast.walk(nd) if isinstance(c, ast.Call) and (dotted(c.func) or "").endswith("struct.unpack")
                    and c.args and isinstance(c.args[0], ast.Constant)]
@@ -510,7 +547,7 @@ def read_dets(ctx):
     if len(hn) >= 2 and det_loop is not None and orb_loop is not None:
         # the determinant loop count defaults to the first header field
         dflt = set()
-        for nd in ast.walk(fi.node):
+        for nd in ast.walk(fnode):
             if isinstance(nd, ast.Assign) and isinstance(nd.targets[0], ast.Name) and nd.targets[0].id in det_loop:
                 dflt |= {n_.id for n_ in ast.walk(nd.value) if isinstance(n_, ast.Name)}
         cnt_ok = (hn[0] in det_loop or hn[0] in dflt) and hn[1] in orb_loop and hn[0] != hn[1]
@@ -518,7 +555,7 @@ def read_dets(ctx):
            f"header ints -> {hn[:2]}; determinant loop over {sorted(det_loop or [])}, orbital loop over {sorted(orb_loop or [])}", fi)
     # occupation mapping: which spin blocks each occupation character sets
     mapping = {}
-    for nd in ast.walk(fi.node):
+    for nd in ast.walk(fnode):
         if isinstance(nd, ast.If) and isinstance(nd.test, ast.Compare) and isinstance(nd.test.comparators[0], ast.Constant):
             key_ = nd.test.comparators[0].value
             if not isinstance(key_, bytes):
